@@ -25,6 +25,13 @@ GEN     Gen_Dup exports every ordered pair (verdict of Dup.tla), every triple of
         both variants pack and their octets are equal exactly where the vector says "duplicates".  Mode "hdrbits": two records
         of every type whose class / type / TTL are the vector's two values differing in one bit.  A panic of IsDuplicate is
         a finding of its own (isduplicate/panics:...); the call in the other order is still judged.
+        Mode "raw" (RAW spellings): the names of the modes "octets" and "raw" are instantiated in two spellings -- escaped (\\DDD,
+        what Unpack produces) and RAW (every octet itself, only . and \\ escaped: what a hand-built record or the zone parser
+        holds for an octet >= 0x80), the raw one where the library packs it to the wire form of the vector.  Mode "raw": every
+        ordered pair of labels of 1..2 octets over {k s C3 89 A9 C5 BF FF FE} (thorough: + K S 80 E2) and the 3-octet Kelvin
+        sign -- UTF-8 sequences that Unicode case folding relates to each other (U+00C9/U+00E9) or to an ASCII letter of
+        another length (U+017F/s, U+212A/k) and octets that are no UTF-8 at all (FF/FE): names are octet strings, only A-Z /
+        a-z are letters -- as owner and in every embedded name field of every type, verdict of Dup.tla on the wire forms.
 TV      harness `dup record`: random pairs of records obtained from the wire (Unpack of the real Pack, one RDATA octet
         outside the names overwritten in a quarter of them) described by their uncompressed owner/RDATA octets and the
         spans of their embedded names, with IsDuplicate in both orders; random lists with TTLs up to 2^32-1 and the real
@@ -61,6 +68,15 @@ Seeded changes /verif/seeded/C20-{1,2,3} (all exit 1):
   C20-18 class compared with the top bit masked off                 GEN isduplicate/false-positive:<type>:class-top-bit (mode "hdrbits", as built and from the wire);
                                                                     TV isduplicate/false-positive:<type>:one-header-bit:class:top-bit (sweep), :class-top-bit (record)
 
+  C20-19 labels.go equal() = strings.EqualFold                      GEN isduplicate/false-positive:<type>:owner-non-ascii-octets:raw-octets, :name-non-ascii-octets:<field>:raw-octets
+                                                                    (mode "raw"), :owner-octet-xor-0x20:raw-octets / :name-octet-xor-0x20:<field>:raw-octets (mode "octets",
+                                                                    raw spelling: x<80>y / x<A0>y are both invalid UTF-8); TV not seen (names from the wire are \\DDD-escaped)
+  C20-20 areSVCBPairArraysEqual: first pair of b with the same key  TV isduplicate/asymmetric:svcb|https:no-wire-form:value (`dup sweep`, "law" events: every ordered pair of lists
+                                                                    of <= 2 (thorough 3) elements drawn with repetition from the first three elements of EVERY slice of every type
+                                                                    where the library refuses to pack one of the two records -- a repeated SVCB key, a 2-octet address ...: such
+                                                                    records have no octets to be judged by; Dup!LawOK judges the clauses on ALL records: the same answer in both
+                                                                    orders, a record is a duplicate of itself, of a record built the same way and of its Copy)
+
 Mutants (checks/mutants/C20), all exit 1 (stage = where the evidence shows the discrepancy):
   mx-preference-omitted.diff     one field dropped from a generated isDuplicate   GEN isduplicate/false-positive:mx:value:preference ; TV (pairs, sweep one-octet)
   soa-mbox-case-sensitive.diff   a name compared with !=                          GEN isduplicate/false-negative:soa:name-case:mbox ; TV not within 6 000 random events
@@ -96,7 +112,7 @@ def gen(ctx, nlist):
         paths.append(p)
     vp.parallel(mc_jobs(ctx) + [lambda: g("pairs", 0), lambda: g("triples", 0), lambda: g("lists", nlist), lambda: g("octets", 0),
                                 lambda: g("seqs", 2 if ctx.quick else 3), lambda: g("labels", 0),
-                                lambda: g("lens", 0), lambda: g("hdrbits", 0)], maxpar=9)
+                                lambda: g("lens", 0), lambda: g("hdrbits", 0), lambda: g("raw", 0 if ctx.quick else 1)], maxpar=10)
     allp = os.path.join(ctx.out, "vectors-all.ndjson")
     n = 0
     with open(allp, "w") as f:
@@ -127,6 +143,15 @@ def trace_key(e):
             return "dedup/%s:trace" % h
         return "dedup/trace:" + kind_key(e["k"])
     k = kind_key(e["k"])
+    if e["ev"] == "law":      # records without a wire form: the clauses on all records
+        mid = "%s:no-wire-form:%s" % (k, e.get("mut", ""))
+        if e["dup"] != e["rdup"]:
+            return "isduplicate/asymmetric:" + mid
+        if not e["self"]:
+            return "isduplicate/not-reflexive:" + mid
+        if not e["copy"]:
+            return "isduplicate/copy-not-duplicate:" + mid
+        return "isduplicate/false-negative:" + mid
     if not e["self"] and e["never"]:
         return "isduplicate/%s-never-duplicate" % k
     if not e["self"]:
@@ -173,7 +198,8 @@ def run(ctx):
     ctx.assumptions += [
         "embedded names of a record = the struct fields tagged dns:\"domain-name\" / \"cdomain-name\" (and the gateway host of IPSECKEY/AMTRELAY when the gateway type says so); their position in the RDATA is found by packing the record with the field replaced by the root",
         "a field is a field of the record's value only if changing it changes the packed octets (GatewayHost of an address-gateway IPSECKEY, address bits beyond an APL/ECS prefix, AMTRELAY gateways under the D bit are not)",
-        "records as built (not decoded) are judged by the octets they pack to, like the pairs of mode \"pairs\"; two as-built spellings of the SAME octets are not judged (AMBIG); a list variant the library refuses to pack (a 3-octet address, a repeated SVCB key) is outside the universe",
+        "records as built (not decoded) are judged by the octets they pack to, like the pairs of mode \"pairs\"; two as-built spellings of the SAME octets are not judged (AMBIG); a list variant the library refuses to pack (a 3-octet address, a repeated SVCB key) has no octets: for it only the clauses on all records are judged (symmetric, reflexive, a record and its copy: `law' events, Dup!LawOK), not whether two different such records are duplicates",
+        "names with raw octets >= 0x80 (zone parser, hand-built) are judged in pairs of the SAME spelling (both raw or both escaped); a raw against an escaped spelling of one name is not judged (AMBIG, like \\065 for A)",
         "Dedup: the RDATA text is the record's String() after the fourth tab; OPT is excluded from Dedup lists (its TTL field is not a TTL)",
         "records differing only in the escaping of a name (\\065 for A) are outside the universe: Unpack and the zone parser produce one canonical spelling",
     ]
